@@ -24,6 +24,9 @@ func runC11(c *Check, tier string) {
 	ruleR11d(c)
 	ruleR11e(c)
 	ruleR11f(c)
+	// the validators must not reuse a verdict reached for one (dependant, dependency) pair for another
+	ruleSkipSetKeyComplete(c, "R11g", "analysis", "dag", "model")
+	ruleMemoKeyComplete(c, "R11h", "analysis", "dag", "model")
 }
 
 func isNoReturnCall(in ssa.Instruction) bool {
